@@ -313,7 +313,8 @@ Proof.
     destruct (a_stop s); [|destruct (a_abort s); [|destruct zero]]; inversion H; subst; clear H;
       unfold spawn; simp_a; rewrite ?dsp_threads_app; cbn [dsp_threads dsp_thread dsp_act];
       invr; auto; try (intros r E; inversion E; reflexivity); try (intros r E; discriminate);
-      try (split; [intros _; lia|intros _; discriminate]); try (split; [intros X; congruence|intros X; lia]).
+      try (split; [intros _; rewrite D0, Q0; lia|intros _; discriminate]);
+      try (split; [intros X; congruence|intros X; rewrite D0, Q0 in X; lia]).
   - (* LProvFinish *)
     destruct (p_owns s && negb (p_sleep s)); [|discriminate]. inversion H; subst; clear H.
     unfold spawn; simp_a. rewrite dsp_threads_app. cbn [dsp_threads dsp_thread dsp_act].
